@@ -53,8 +53,8 @@ inline ProdMenus prod_menus(bool thorough) {
         /*scheme*/ {"http:", "HTTPS:", "file:", "a:", ""},
         /*slashes*/ {"//", "/", "\\\\", ""},
         /*userinfo*/ {"", "u:p@", "@"},
-        /*host*/ {"example.com", "EXAMPLE.com", "1.2.3.4", "0x7f.1", "[1::2]", EACUTE ".com", "a%2Eb", h16 + ".com", h17, ""},
-        /*port*/ {"", ":80", ":443", ":008"},
+        /*host*/ {"example.com", "EXAMPLE.com", "1.2.3.4", "0x7f.1", "a.0XAB", "[1::2]", EACUTE ".com", "a%2Eb", h16 + ".com", h17, ""},
+        /*port*/ {"", ":80", ":443", ":008", ":1000"},
         /*path*/ {"", "/", "/a/../b/./c", "/%2e%2E/x", "\\x\\y", "/" + h16 + "/" + h17},
         /*query*/ {"", "?", "?a='" EACUTE " b"},
         /*fragment*/ {"", "#", "#f` \"<>"},
@@ -67,8 +67,8 @@ inline ProdMenus prod_menus(bool thorough) {
         /*userinfo*/ {"", "u:p@", "@", "u@", ":p@", "u:p:q@x@", EACUTE ":" EACUTE "@"},
         /*host*/ {"example.com", "EXAMPLE.com", "1.2.3.4", "0x7f.1", "1.2.3.4.", "256.1.1.1", "09", "0x", "1.2.3", "[1::2]",
                   "[::1.2.3.4]", "[1:2:3:4:5:6:7:8]", "[1::2", EACUTE ".com", "xn--nxasmq6b", "xn--", "a%2Eb", "a b", "a^b", "a.b.",
-                  h15, h16, h17, h31, h32, h33 + ".x", h48, ""},
-        /*port*/ {"", ":80", ":443", ":21", ":008", ":0", ":65535", ":65536", ":", ":8a"},
+                  h15, h16, h17, h31, h32, h33 + ".x", h48, "a.0XAB", "srv.0xFf.", "0X7F.1", ""},
+        /*port*/ {"", ":80", ":443", ":21", ":008", ":0", ":65535", ":65536", ":", ":8a", ":9", ":10", ":99", ":100", ":999", ":1000", ":9999", ":10000"},
         /*path*/ {"", "/", "/a/../b/./c", "/%2e%2E/x", "\\x\\y", "/" + h16 + "/" + h17, "/C:/x", "/C|/x", "/..", "/a/..", "//", "/.//x",
                   "/a b", "/" EACUTE, "/%zz", "/" + h31 + "?", "x", "../x", "./", "/a;b=c"},
         /*query*/ {"", "?", "?a='" EACUTE " b", "?q#", "??", "?" + h17},
@@ -105,6 +105,23 @@ inline std::vector<int> byte_positions(bool thorough) {
   return {0, 1, 7, 8, 9, 15, 16, 17, 31, 32, 33};
 }
 
+// ---- E-host: every host of <= k characters over an alphabet aimed at the "ends in a number" / IPv4 decisions
+// (decimal, octal and hex digits in both cases, the hex marker in both cases, dots, a letter, a hyphen) --------
+inline const std::vector<std::string>& host_chars() {
+  static const std::vector<std::string> t = {"0", "1", "9", ".", "x", "X", "a", "F", "-"};
+  return t;
+}
+struct HostTemplate { std::string pre, post; };
+inline const std::vector<HostTemplate>& host_templates() {
+  static const std::vector<HostTemplate> t = {
+      {"http://", "/"},            // eligible for try_parse_simple_absolute
+      {"https://u@", ":8/p?q"},    // state machine (credentials, port)
+      {"a://", "/"},               // opaque host
+      {"//", "/x"},                // relative, host from input, scheme from base
+  };
+  return t;
+}
+
 // ---- history menus --------------------------------------------------------------------------------
 enum Op : uint8_t { SET_HREF, SET_PROTOCOL, SET_USERNAME, SET_PASSWORD, SET_HOST, SET_HOSTNAME, SET_PORT,
                     SET_PATHNAME, SET_SEARCH, SET_HASH, CLEAR_PORT, CLEAR_SEARCH, CLEAR_HASH, OP_COUNT };
@@ -121,7 +138,7 @@ inline const std::vector<std::string>& init_urls() {
       "https://" EACUTE "sp.example/", "ws://h/", "wss://h:444/x", "ftp://u@h/d/f", "file:///C:/x/y", "file://host/s/f",
       "file:///", "a://h:1/p?q#f", "a://u:p@h/p", "a:///p", "a:/p/q", "a:/.//p", "a:p", "a:o p ", "a:o p ?q",
       "mailto:u@h?s=1#f", "blob:https://h/id", "http://h/?#", "a://h", "a://h?q", "http://h:0/", "https://h/a/../b",
-      "a:/", "a:",
+      "a:/", "a:", "http://h:1000/p", "a://h:10000",
   };
   return u;
 }
@@ -135,7 +152,7 @@ inline std::vector<OpVal> op_menu(bool thorough, bool with_clear) {
     add(SET_PASSWORD, {"", "p"});
     add(SET_HOST, {"example.org", "h:99", "1.2.3.4", "[::2]", "", "a b", "x/y", "0x10", EACUTE ".x"});
     add(SET_HOSTNAME, {"h2", "h:99", "", "2.3.4.5", "[1::]"});
-    add(SET_PORT, {"", "80", "443", "8080", "99999", "1x"});
+    add(SET_PORT, {"", "80", "443", "8080", "1000", "99999", "1x"});
     add(SET_PATHNAME, {"", "/", "//x", "/a/../b", "c d", "/C|/z", "?#"});
     add(SET_SEARCH, {"", "?", "a=b c"});
     add(SET_HASH, {"", "#", "h h"});
@@ -148,7 +165,7 @@ inline std::vector<OpVal> op_menu(bool thorough, bool with_clear) {
                    "x#y", "0x10", "256.0.0.1", EACUTE ".x", "h\t2", "u@h", "xn--a"});
     add(SET_HOSTNAME, {"h2", "h:99", "", "2.3.4.5", "[1::]", "a b", "x/y", "x\\y", "0x10", EACUTE ".y", "h\n3", "u@h", ":1", "1.2.3.4.",
                        "[::1", "a%41", "A", "x?y", "x#y", "4294967296"});
-    add(SET_PORT, {"", "80", "443", "21", "8080", "0", "00090", "65535", "65536", "99999", "1x", "x", "8\t1"});
+    add(SET_PORT, {"", "80", "443", "21", "8080", "0", "00090", "65535", "65536", "99999", "1x", "x", "8\t1", "9", "10", "100", "1000", "10000"});
     add(SET_PATHNAME, {"", "/", "//x", "/.//x", "/a/../b", "c d", "/C|/z", "C:/q", "?#", "/%2e/x", "\\a\\b", "/" EACUTE, "..", "/a/b/c/", "x", "/ "});
     add(SET_SEARCH, {"", "?", "a=b c", "?x'y", "#", EACUTE, "??", "q\t"});
     add(SET_HASH, {"", "#", "h h", "##", "`<>\"", EACUTE});
